@@ -135,6 +135,9 @@ def run(tier, rep):
         for shape in [(n,), (n // 4, 4), (n // 12, 3, 4)]:
             v0, v1, v2 = [E[:, k].reshape(shape).copy() for k in range(3)]
             b0, b1, b2 = v0.copy(), v1.copy(), v2.copy()
+            if rnd_round % 2:
+                for v_ in (v0, v1, v2):
+                    v_.flags.writeable = False      # read-only inputs: writing into them would raise
             try:
                 got, gerr = dea3(v0, v1, v2)
             except Exception as ex:
